@@ -283,3 +283,200 @@ def private_helper_of(F, b, covered, depth=0):
         if not private_helper_of(F, c, covered, depth + 1):
             return False
     return True
+
+
+# --------------------------------------------------------------------------- persistent caches (purity of keyed look-ups)
+
+def _locals_in(j, acc):
+    """base locals of every place mentioned in an operand / rvalue JSON"""
+    if isinstance(j, dict):
+        if "l" in j and "p" in j and isinstance(j["l"], int):
+            acc.append(j)
+            return
+        for v in j.values():
+            _locals_in(v, acc)
+    elif isinstance(j, list):
+        for v in j:
+            _locals_in(v, acc)
+
+
+def value_deps(body):
+    """flow-insensitive dependence of every local of `body` on its inputs: 'arg:i' (i-th parameter), 'env:k' (k-th captured variable of a
+    closure body), as a dict local -> frozenset.  A call's result depends on all its arguments; a reference depends on what it refers to."""
+    is_closure = body.get("kind") == "Closure" or "{closure" in body["path"]
+    deps = {i: set() for i in range(len(body["locals"]))}
+    for i in range(1, body["argc"] + 1):
+        if not (is_closure and i == 1):
+            deps[i].add("arg:%d" % i)
+
+    def place_deps(pl):
+        l = pl["l"]
+        if is_closure and l == 1:
+            for pe in pl["p"]:
+                if isinstance(pe, dict) and "f" in pe:
+                    return {"env:%d" % pe["f"]}
+            return {"env:*"}
+        return set(deps[l])
+    edges = []      # (dest local, [places])
+    for bb in body["blocks"]:
+        for st in bb["s"]:
+            if st.get("k") == "assign":
+                acc = []
+                _locals_in(st.get("rv"), acc)
+                edges.append((st["p"]["l"], acc))
+        t = bb["t"]
+        if t.get("k") == "call" and t.get("dest"):
+            acc = []
+            _locals_in(t.get("args"), acc)
+            edges.append((t["dest"]["l"], acc))
+            # a call may also write through a &mut argument: the referent then depends on the other arguments — approximated by making
+            # every argument local depend on all arguments
+            for a in acc:
+                edges.append((a["l"], [x for x in acc if x is not a]))
+    changed = True
+    while changed:
+        changed = False
+        for d, srcs in edges:
+            if is_closure and d == 1:
+                continue
+            new = set()
+            for pl in srcs:
+                new |= place_deps(pl)
+            if not new <= deps[d]:
+                deps[d] |= new
+                changed = True
+    return {k: frozenset(v) for k, v in deps.items()}, place_deps
+
+
+def cache_key_rule(F, rep, rule, roots):
+    """A value memoised in state that outlives the call (a `thread_local!`, a once-cell) must be determined by its key: if what is stored under
+    a key depends on a run-time parameter of the enclosing function that the key does not depend on, a later call with the same key and a
+    different parameter gets the stale value — the function's result then depends on the history of calls.  Decided by dataflow over MIR
+    (captured variables of the initialising closure vs. the variables the key is computed from)."""
+    # functions reachable from the roots
+    seen, st = set(), [r for r in roots if r in F.fns]
+    while st:
+        p_ = st.pop()
+        if p_ in seen:
+            continue
+        seen.add(p_)
+        b = F.fns[p_]
+        for bb in b["blocks"]:
+            t = bb["t"]
+            if t.get("k") == "call" and "const" in t["f"] and "fn" in t["f"]["const"]:
+                fr = t["f"]["const"]["fn"]
+                for q in (fr.get("rpath"), fr.get("path")):
+                    if q and q in F.fns and q not in seen:
+                        st.append(q)
+            for s_ in bb["s"]:
+                rv = s_.get("rv") or {}
+                if rv.get("k") == "agg" and rv.get("ak") == "closure" and rv.get("closure") in F.fns:
+                    st.append(rv["closure"])
+    found = 0
+    problems = []
+
+    def closure_ops(body, local):
+        for bb in body["blocks"]:
+            for s_ in bb["s"]:
+                rv = s_.get("rv") or {}
+                if s_.get("k") == "assign" and s_["p"]["l"] == local and not s_["p"]["p"] and rv.get("k") == "agg" and rv.get("ak") == "closure":
+                    return rv
+        return None
+
+    def env_names(cbody):
+        out = {}
+        for dbg in cbody.get("debug") or []:
+            pl = dbg.get("p") or {}
+            if pl.get("l") == 1:
+                for pe in pl.get("p", []):
+                    if isinstance(pe, dict) and "f" in pe:
+                        out.setdefault(pe["f"], dbg.get("name"))
+                        break
+        return out
+
+    for p_ in sorted(seen):
+        outer = F.fns[p_]
+        for bb in outer["blocks"]:
+            t = bb["t"]
+            if t.get("k") != "call" or "const" not in t["f"]:
+                continue
+            fr = t["f"]["const"].get("fn") or {}
+            cal = fr.get("path", "")
+            if not (cal.startswith("std::thread::LocalKey") and cal.split("::")[-1] in ("with", "try_with", "with_borrow_mut", "with_borrow")):
+                continue
+            acc = []
+            _locals_in(t["args"][1:], acc)
+            agg = closure_ops(outer, acc[0]["l"]) if acc else None
+            if agg is None or agg.get("closure") not in F.fns:
+                continue
+            found += 1
+            cb = F.fns[agg["closure"]]
+            outer_deps, outer_place = value_deps(outer)
+            cdeps, cplace = value_deps(cb)
+            # which run-time parameters of the outer function does each captured variable depend on?
+            cap = {}
+            for k, op in enumerate(agg["ops"]):
+                a2 = []
+                _locals_in(op, a2)
+                d = set()
+                for pl in a2:
+                    d |= outer_place(pl)
+                cap[k] = {x for x in d if x.startswith("arg:")}
+            names = env_names(cb)
+            # inside the closure: keyed insertions
+            keys, vals = [], []
+            for bb2 in cb["blocks"]:
+                t2 = bb2["t"]
+                if t2.get("k") != "call" or "const" not in t2["f"]:
+                    continue
+                f2 = (t2["f"]["const"].get("fn") or {}).get("path", "")
+                nm = f2.split("::")[-1]
+                a_all = t2.get("args") or []
+
+                def d_of(op):
+                    a3 = []
+                    _locals_in(op, a3)
+                    d = set()
+                    for pl in a3:
+                        d |= cplace(pl)
+                        # a closure value built here: what it captures
+                        ag = closure_ops(cb, pl["l"])
+                        if ag is not None:
+                            for op2 in ag["ops"]:
+                                a4 = []
+                                _locals_in(op2, a4)
+                                for pl2 in a4:
+                                    d |= cplace(pl2)
+                    return {x for x in d if x.startswith("env:")}
+                if ("HashMap" in f2 or "BTreeMap" in f2 or "hash_map" in f2 or "btree_map" in f2) and nm == "entry" and len(a_all) == 2:
+                    keys.append(d_of(a_all[1]))
+                elif ("HashMap" in f2 or "BTreeMap" in f2) and nm == "insert" and len(a_all) == 3:
+                    keys.append(d_of(a_all[1]))
+                    vals.append(d_of(a_all[2]))
+                elif nm in ("or_insert_with", "or_insert", "or_insert_with_key") and "Entry" in f2 and len(a_all) == 2:
+                    vals.append(d_of(a_all[1]))
+            if not vals:
+                continue
+            kd = set().union(*keys) if keys else set()
+            for v in vals:
+                for e in sorted(v - kd):
+                    if e == "env:*":
+                        continue
+                    k = int(e[4:])
+                    params = cap.get(k, set())
+                    if params:
+                        pn = []
+                        for a_ in sorted(params):
+                            i_ = int(a_[4:])
+                            dn = [d_.get("name") for d_ in outer.get("debug") or [] if d_.get("arg") == i_]
+                            pn.append(dn[0] if dn else "parameter %d" % i_)
+                        problems.append((outer, "the value stored in thread-local state by %s depends on `%s` (parameter %s of %s), but the key it is stored under does not: "
+                                         "a later call with the same key and a different `%s` is answered from the stale entry, so the result depends on "
+                                         "which call came first on this thread" % (outer["path"].split("::")[-1], names.get(k, "captured variable %d" % k),
+                                                                                   ", ".join(pn), outer["path"], names.get(k, "value"))))
+    if problems:
+        body, msg = problems[0]
+        rep.violated(rule, "persistent-cache", msg, site=F.site(body, body["line"]), witness={"kind": "cache-key", "count": len(problems)})
+    else:
+        rep.holds(rule, "persistent-cache", "no value memoised in thread-local state depends on a run-time parameter missing from its key (%d functions reachable from "
+                  "the entry points inspected, %d thread-local accesses)" % (len(seen), found), nontrivial=bool(found))
